@@ -258,10 +258,16 @@ CLEN_PARTS = {'C01': ('sincos',), 'C02': ('sincos',), 'C03': ('sincos', 'dst'), 
 def _clen(ctx, prop):
     from .rules import clenshaw
     if prop in ('C06', 'C04'):
-        from .rules import tmseries
+        from .rules import tmseries, parity
         r, n = tmseries.rule_TMC(ctx)
         r.floor('paths of TransverseMercator::Forward/Reverse through the series', n, 30)
-        return [r]
+        s3, nf3, no3 = parity.rule_S3(ctx, [NSP + 'TransverseMercator', NSP + 'TransverseMercatorExact'])
+        s3.floor('Forward/Reverse bodies', nf3, 4)
+        s3.floor('outputs x reflections', no3, 32)
+        from .rules import offsets
+        l0, nl0 = offsets.rule_LON0(ctx, ('TransverseMercator', 'TransverseMercatorExact'))
+        l0.floor('Forward/Reverse bodies with a central meridian', nl0, 4)
+        return [r, s3, l0]
     if prop not in CLEN_PARTS:
         return []
     r, n = clenshaw.rule_CLEN(ctx, CLEN_PARTS[prop])
@@ -293,6 +299,11 @@ def _mathk(ctx, prop):
 def _symm(ctx, prop):
     from .rules import symmetry
     out = []
+    if prop == 'C11':
+        from .rules import offsets
+        l0, nl0 = offsets.rule_LON0(ctx, ('LambertConformalConic', 'AlbersEqualArea'))
+        l0.floor('Forward/Reverse bodies with a central meridian', nl0, 4)
+        out.append(l0)
     if prop in ('C09', 'C11', 'C15'):
         r, nh, npth = symmetry.rule_SYMM(ctx)
         r.floor('divided-difference helpers', nh, 15)
